@@ -738,7 +738,11 @@ def _run(case: Dict[str, Any], sim: Sim, world: World, clock: SimClock) -> None:
                 auts_b = gr.automorphisms(g_blind, limit=6001)
                 for keys, want_n, want_orb in ((("role",), len(auts_b), gr.orbits_of(g_blind.nodes, auts_b)),
                                                (("role", "stoich"), T["count"], T["orbits"])):
-                    c.edge_attr_keys = keys
+                    try:
+                        c.edge_attr_keys = keys
+                    except AttributeError:      # an implementation may make the selection read-only
+                        sim.probe("attribute_selection_is_read_only")
+                        break
                     s_k = c.summary()
                     if want_n > 6000 or s_k["early_stop"]:
                         continue
